@@ -314,9 +314,12 @@ def gen_case(rng, tie):
                 hooks[tg] = [[rng.choice(['start', 'end']), rng.choice(names), 'h']]
         targets[n] = {'table': table, 'hooks': hooks, 'nameless': rng.random() < 0.15}
     horizon = 20.0
+    n_req = rng.randint(5, 40)
+    if rng.random() < 0.03:
+        horizon, n_req = 600.0, rng.randint(400, 1200)        # long histories: hundreds of orders
     script = []
     t = 0.0
-    for _ in range(rng.randint(5, 40)):
+    for _ in range(n_req):
         if rng.random() < 0.5:
             t = rng.randrange(0, int(horizon * 4)) / 4.0
         script.append([t, rng.choice([2, 3, 3, 4, 6, 10, 10.5, 2.5]), rng.choice(names), rng.choice(tags)])
